@@ -645,14 +645,16 @@ class PostgreSQLQueryBuilder(QueryBuilder):
                 self._return_other(self.wrap_constant(term, self._wrapper_cls))
 
     def _validate_returning_term(self, term: Term) -> None:
-        for field in term.fields_():
+        # find_ rather than fields_(): fields_() is a set keyed by the rendered text, which drops same-named
+        # fields of different tables; each field is judged by its own table, not by the tables of the whole term
+        for field in term.find_(Field):
             if not any([self._insert_table, self._update_table, self._delete_from]):
                 raise QueryException("Returning can't be used in this query")
 
             table_is_insert_or_update_table = field.table in {self._insert_table, self._update_table}
             join_tables = set(itertools.chain.from_iterable([j.criterion.tables_ for j in self._joins]))
             join_and_base_tables = set(self._from) | join_tables
-            table_not_base_or_join = bool(term.tables_ - join_and_base_tables)
+            table_not_base_or_join = isinstance(field.table, Table) and field.table not in join_and_base_tables
             if not table_is_insert_or_update_table and table_not_base_or_join:
                 raise QueryException("You can't return from other tables")
 
